@@ -1,10 +1,11 @@
 import PxModel.Bytes
+import PxModel.PyInt
 /-!
 # General lemmas about the Python-`bytes` helpers of `PxModel/Bytes.lean`
 
 Shared by the parser-family proofs (C02, C03, C06, C14, C15).  Sections:
 `startsWith`, `splitCRLF`, `splitOnce1`, `splitN1`, `lstrip`/`rstrip`/`strip`,
-`lower`.  Everything is stated for arbitrary byte strings.
+`lower`, `pyInt`.  Everything is stated for arbitrary byte strings.
 -/
 namespace Px
 
@@ -316,5 +317,16 @@ theorem lower_eq_self {x : Bytes} (h : ∀ c ∈ x, ¬ (65 ≤ c ∧ c ≤ 90)) 
       · rfl
     simp only [lower, List.map_cons, this] at ih ⊢
     rw [ih (fun d hd => h d (List.mem_cons_of_mem _ hd))]
+
+/-! ### `pyInt` (`int(text, base)`) -/
+
+/-- `int()` of an all-whitespace (or empty) text raises -/
+theorem pyInt_ws_none (base : Nat) (s : Bytes) (h : ∀ c ∈ s, isWs c = true) : pyInt base s = none := by
+  have hl : lstrip s = [] := (lstrip_eq_nil_iff s).2 h
+  unfold pyInt
+  simp only [hl]
+  have : scanDigits base (if (base == 16) = true then [] else []) 0 0 0 = none := by
+    simp [scanDigits]
+  simp only [this]
 
 end Px
